@@ -80,6 +80,7 @@ type Sim struct {
 	current   *Task
 	curInst   int
 	passAll   atomic.Bool
+	ksCalls   atomic.Int64 // keyspace-function entries (counted in every mode)
 	sites     map[string]bool // nil = all sites park; else only listed ones
 	Step      int
 	Log       []string // event log (controller decisions, notes)
@@ -88,6 +89,7 @@ type Sim struct {
 	deadInst  map[int]bool
 	rewriting map[int]bool // instance currently inside RewriteLog (engine.mut held)
 	// hooks for profiles
+	OnYieldOpp func(site string, t *Task) // fault/crash opportunity at selected yield sites (every mode)
 	OnNote   func(ev string, t *Task)
 	OnFault  func(site string, t *Task) error
 	OnFS     func(kind, path string, b []byte, t *Task)
@@ -186,6 +188,14 @@ func (s *Sim) taskFor(g uint64) *Task {
 }
 
 func (s *Sim) park(site string, spin bool) {
+	if strings.HasPrefix(site, "ks.") {
+		s.ksCalls.Add(1)
+	}
+	if s.OnYieldOpp != nil && oppSites[site] {
+		if t := s.callerTask(); t != nil {
+			s.OnYieldOpp(site, t)
+		}
+	}
 	if s.passAll.Load() {
 		return
 	}
@@ -218,6 +228,9 @@ func (s *Sim) park(site string, spin bool) {
 		runtime.Goexit()
 	}
 }
+
+// yield sites that double as fault/crash opportunities
+var oppSites = map[string]bool{"cmd.after_handler": true, "cmd.after_log": true, "rewrite.after_preamble": true, "getState.done": true, "rewrite.lock": true}
 
 func (s *Sim) hookYield(site string) { s.park(site, false) }
 func (s *Sim) hookSpin(site string)  { s.park("spin:"+site, true) }
